@@ -714,13 +714,21 @@ func atStateOK(ev gmsl.PDU, sp *stubStateProvider, allowValidation bool) bool {
 	if sp.stErr {
 		return false
 	}
-	var auth []gmsl.PDU
-	for _, a := range ev.AuthEventIDs() {
-		if p, ok := sp.state[a]; ok {
-			auth = append(auth, p)
+	// "allowed by the state before it": the whole state, not just the part of it the event chose to cite
+	var state []gmsl.PDU
+	tuples := map[stKey]bool{}
+	for _, p := range sp.state {
+		if p.StateKey() == nil {
+			continue
 		}
+		k := stKey{p.Type(), *p.StateKey()}
+		if tuples[k] {
+			panic("harness: the stub state holds two events for one state key")
+		}
+		tuples[k] = true
+		state = append(state, p)
 	}
-	return allowedBy(ev, auth)
+	return allowedBy(ev, state)
 }
 
 func c14AuthAtState(c *mon.Ctx, r *gen.Rand, sc *simScenario) {
